@@ -2568,6 +2568,23 @@ class Group(System):
         finally:
             self._tot_jac = save_tot_jac
 
+    def _set_complex_step_mode(self, active):
+        """
+        Turn on or off complex stepping mode.
+
+        Parameters
+        ----------
+        active : bool
+            Complex mode flag; set to True prior to commencing complex step.
+        """
+        super()._set_complex_step_mode(active)
+
+        if self._doutputs._alloc_complex and self._assembled_jac is not None:
+            # Sub-jacobian metadata is shared with the jacobians of the systems above. This group
+            # may not be linearized again before one of those uses it (e.g. a group above
+            # approximates its derivatives), so keep the dtype in step with the mode here.
+            self._assembled_jac._pre_update(self._doutputs.asarray().dtype)
+
     def _apply_nonlinear(self):
         """
         Compute residuals. The model is assumed to be in a scaled state.
